@@ -56,6 +56,16 @@ pub fn queries(r: &mut Rng, out: &mut String, b: &str, nkeys: usize) {
         writeln!(out, "range_cardinality {} {} {}", b, lo, hi).unwrap();
         writeln!(out, "contains_range {} {} {}", b, lo, hi).unwrap();
     }
+    // ranges spanning several chunks, and everything
+    let a = value(r, nkeys) as u64;
+    let z = (a + r.range(65536, 4 * 65536)).min(u32::MAX as u64);
+    writeln!(out, "range_cardinality {} in:{} in:{}", b, a, z).unwrap();
+    writeln!(out, "contains_range {} in:{} in:{}", b, a, z).unwrap();
+    if r.chance(1, 3) {
+        writeln!(out, "range_cardinality {} un un", b).unwrap();
+        writeln!(out, "contains_range {} un un", b).unwrap();
+        writeln!(out, "range_cardinality {} in:0 in:4294967295", b).unwrap();
+    }
 }
 
 /// one random C01 mutator on slot `b0` (no `dump`); shared with the operand builders of other profiles
